@@ -31,6 +31,7 @@ type refineCheck struct {
 	profile func(rng *rand.Rand, tier string) world.Profile
 	extra   func(rng *rand.Rand, g *world.Gen) func(h uint32, bs *world.BlockSpec)
 	opt     model.Options
+	noSweep bool // the profile aligns heights with the start era: leave it alone
 	// final runs property-specific invariants on the synced database that do
 	// not depend on the model's arithmetic.
 	final func(env *Env, w *world.World, db *sql.DB, l *model.Ledger) *Violation
@@ -51,6 +52,15 @@ func (c *refineCheck) Rule() string  { return c.rule }
 func (c *refineCheck) Gen(seed uint64, tier string) (*Scenario, error) {
 	rng := rand.New(rand.NewSource(int64(seed)))
 	p := c.profile(rng, tier)
+	// every fifth world sweeps the start era over the whole activation list, so
+	// that each property's traffic also meets the activations its own profile
+	// does not aim at (only where the profile does not align a trigger height)
+	if !c.noSweep && seed%5 == 0 {
+		p.StartEra = rng.Intn(len(world.ActNames) - 1)
+		if p.Blocks < 40 {
+			p.Blocks = 40
+		}
+	}
 	g := world.NewGen(seed, p)
 	var ex func(h uint32, bs *world.BlockSpec)
 	if c.extra != nil {
